@@ -21,6 +21,10 @@ def run(repo: Repo, chk: Check):
     chk.rule("R07.c", "every function region that is emitted ends, after its end label, in an instruction that cannot fall "
                       "through whenever something can jump to that label (early return) — also when the final 'j ra' is "
                       "replaced by a tail call", floor=2)
+    chk.rule("R07.d", "a function is emitted as a region with a final 'j ra' exactly when it is not inlined: all sites evaluate the same "
+                      "predicate (inline_functions AND called once) or its negation (shared with R02.c)", floor=8)
+    from .c02 import r02c
+    chk.guarded(r02c, repo, chk, "R07.d")
     g = repo.mod("generate_code")
     qual = "CompilerPassGatherCode.run"
     fn = g.func(qual)
